@@ -840,7 +840,7 @@ Section Roundtrip.
         - destruct (IH Hf) as (y & Hy & Hy2). exists y. split; [right; auto | auto]. }
       destruct Hex as ([k x] & Hin & Hx). rewrite Forall_forall in H.
       erewrite map_opt_none; [reflexivity | exact Hin |].
-      simpl in *. rewrite (H (k, x) Hin Hx). reflexivity.
+      cbn beta iota. pose proof (H (k, x) Hin Hx) as Hn0. simpl in Hn0. rewrite Hn0. reflexivity.
     - assert (Hex : exists kv, In kv l /\ finite_floats (snd kv) = false).
       { clear H. induction l as [|x r IH]; simpl in Hf; try discriminate.
         apply andb_false_iff in Hf. destruct Hf as [Hf|Hf].
@@ -848,7 +848,7 @@ Section Roundtrip.
         - destruct (IH Hf) as (y & Hy & Hy2). exists y. split; [right; auto | auto]. }
       destruct Hex as ([k x] & Hin & Hx). rewrite Forall_forall in H.
       erewrite map_opt_none; [reflexivity | exact Hin |].
-      simpl in *. rewrite (H (k, x) Hin Hx). reflexivity.
+      cbn beta iota. pose proof (H (k, x) Hin Hx) as Hn0. simpl in Hn0. rewrite Hn0. reflexivity.
   Qed.
 
   (* ---------------------------------------------------------------- C10: observers *)
@@ -922,5 +922,80 @@ Section Roundtrip.
   Proof.
     intros r Hw. destruct (wf_tag _ Hw) as (k & Hk & Ht). unfold r_truthy. rewrite Ht, dispatch_kind_tag.
     destruct r; simpl in Hk; inversion Hk; subst; simpl; auto.
+  Qed.
+
+  Lemma all_eq2_ok : forall (f : rvalue -> rvalue -> outcome bool) l m,
+    Forall (fun x => forall y, y = RNil \/ wf T y = true -> notrap (f x y)) l ->
+    forallb (wf T) m = true -> notrap (all_eq2 f l m).
+  Proof.
+    intros f l. induction l as [|x r IH]; intros m HF Hm; simpl; auto.
+    destruct m as [|y s]; simpl; auto.
+    inversion HF; subst. simpl in Hm. apply andb_true_iff in Hm. destruct Hm as [Hy Hs].
+    specialize (H1 y (or_intror Hy)). destruct (f x y) as [[|]|]; simpl in *; auto.
+  Qed.
+
+  Lemma all_bool_ok : forall A (f : A -> outcome bool) l,
+    Forall (fun x => notrap (f x)) l -> notrap (all_bool f l).
+  Proof.
+    induction 1 as [|x r Hx Hr IH]; simpl; auto.
+    destruct (f x) as [[|]|]; simpl in *; auto.
+  Qed.
+
+  Lemma lookup_wf : forall k (m : list (string * rvalue)) y,
+    forallb (fun kv => wf T (snd kv)) m = true -> lookup k m = Some y -> wf T y = true.
+  Proof.
+    induction m as [|[k' v] r IH]; simpl; intros y Hw H; try discriminate.
+    apply andb_true_iff in Hw. destruct Hw as [H1 H2].
+    destruct (String.eqb k k'); [inversion H; subst; auto | auto].
+  Qed.
+
+  Lemma wf_equal : forall a, wf T a = true ->
+    forall b, b = RNil \/ wf T b = true -> notrap (r_equal T a b).
+  Proof.
+    induction a using rvalue_ind'; intros Hw bb Hb;
+      destruct (wf_tag _ Hw) as (k & Hk & Ht); simpl in Hk; inversion Hk; subst; clear Hk;
+        (destruct Hb as [-> | Hb];
+         [ unfold r_equal; fold r_equal; rewrite Ht; simpl; exact I | ]);
+        destruct (wf_tag _ Hb) as (kb & Hkb & Htb);
+        unfold r_equal; fold r_equal; rewrite Ht, Htb;
+          (destruct (Z.eqb_spec (kind_tag T _) (kind_tag T kb)) as [E|E]; [ | simpl; exact I ]);
+          apply kind_tag_inj in E; subst kb; cbn [negb]; rewrite dispatch_kind_tag;
+            try (simpl; exact I).
+    - (* array *)
+      destruct bb; simpl in Hkb; try discriminate.
+      destruct (length l =? length l0)%nat; [ | simpl; exact I].
+      simpl in Hw, Hb. apply andb_true_iff in Hw. apply andb_true_iff in Hb.
+      destruct Hw as [_ Hw], Hb as [_ Hb].
+      apply all_eq2_ok; auto.
+      rewrite Forall_forall in *. rewrite forallb_forall in Hw. intros x Hin. apply H; auto.
+    - (* dict *)
+      destruct bb; simpl in Hkb; try discriminate.
+      destruct (length l =? length l0)%nat; [ | simpl; exact I].
+      simpl in Hw, Hb.
+      apply andb_true_iff in Hw. destruct Hw as [Hw _]. apply andb_true_iff in Hw. destruct Hw as [_ Hw].
+      apply andb_true_iff in Hb. destruct Hb as [Hb _]. apply andb_true_iff in Hb. destruct Hb as [_ Hb].
+      apply all_bool_ok. rewrite Forall_forall in *. rewrite forallb_forall in Hw.
+      intros [k x] Hin. apply (H (k, x) Hin (Hw (k, x) Hin)).
+      destruct (lookup k l0) as [y|] eqn:El; [right; eapply lookup_wf; eauto | left; reflexivity].
+    - (* computed, no attrs *)
+      destruct bb; simpl in Hkb; try discriminate. simpl. exact I.
+    - (* computed with attrs *)
+      destruct bb; simpl in Hkb; try discriminate. simpl. exact I.
+    - (* native *)
+      destruct bb; simpl in Hkb; try discriminate. simpl. exact I.
+  Qed.
+
+  (* C10: on a well-formed value the modelled observers never hit a failed type assertion or
+     a nil dereference *)
+  Theorem wf_no_trap : forall r, wf T r = true ->
+    notrap (r_to_string T r) /\ notrap (r_truthy T r) /\ notrap (r_to_json T r) /\
+    (forall r2, wf T r2 = true -> notrap (r_equal T r r2) /\ notrap (r_equal T r2 r)).
+  Proof.
+    intros r Hw. repeat split.
+    - apply wf_to_string; auto.
+    - apply wf_truthy; auto.
+    - apply wf_to_json; auto.
+    - apply wf_equal; auto.
+    - apply wf_equal; auto.
   Qed.
 End Roundtrip.
